@@ -362,17 +362,26 @@ def run_generated(case):
         k = pgpy.PGPKey.new(a, s, created=created)
         k.add_uid(pgpy.PGPUID.new('Fp Test', email='fp@x'), usage={KeyFlags.Certify, KeyFlags.Sign}, hashes=[HashAlgorithm.SHA256],
                   ciphers=[SymmetricKeyAlgorithm.AES256], compression=[CompressionAlgorithm.Uncompressed])
-        sk = pgpy.PGPKey.new(a, s, created=created)
+        # the signing subkey was generated a day BEFORE the key it is attached to (where the instant allows): becoming a subkey changes
+        # neither its creation time nor, hence, its fingerprint
+        from datetime import timedelta
+        early = want is not None and want >= 86400
+        sk = pgpy.PGPKey.new(a, s, created=created - timedelta(days=1) if early else created)
+        before = [str(sk.fingerprint)]
         k.add_subkey(sk, usage={KeyFlags.Sign})
         ek = pgpy.PGPKey.new(PubKeyAlgorithm.ECDH, dict(ECDH)[case['ecdh']], created=created)
+        before.append(str(ek.fingerprint))
         k.add_subkey(ek, usage={KeyFlags.EncryptCommunications, KeyFlags.EncryptStorage})
+        ck.eq('fingerprints of the two keys after add_subkey() made them subkeys vs before', [str(sk.fingerprint), str(ek.fingerprint)], before)
+        ck.eq('subkeys are listed under their key ids', sorted(k.subkeys), sorted(f[-16:] for f in before))
         ref = ck.forms(k)
         if ref is not None:
             if want is not None:
-                for t, body in key_bodies(bytes(k)):
-                    ck.eq('exported creation time is the requested instant [tag %d]' % t, indep.pubkey(body)['created'], want)
-                for t, body in key_bodies(bytes(k.pubkey)):
-                    ck.eq('exported creation time of the public twin [tag %d]' % t, indep.pubkey(body)['created'], want)
+                wants = [want, want - 86400 if early else want, want]
+                for (t, body), w in zip(key_bodies(bytes(k)), wants):
+                    ck.eq('exported creation time is the requested instant [tag %d]' % t, indep.pubkey(body)['created'], w)
+                for (t, body), w in zip(key_bodies(bytes(k.pubkey)), wants):
+                    ck.eq('exported creation time of the public twin [tag %d]' % t, indep.pubkey(body)['created'], w)
             ck.emitted_ids(k, ref)
             # protected + unlocked: ids written while unlocked
             if case['tier'] == 'quick' and case['zone'] != 'UTC' and case['alg'] != 'EdDSA/Ed25519':
